@@ -126,3 +126,6 @@ impl<T> Drop for Drain<'_, T> {
     DropGuard { drain: self };
   }
 }
+
+unsafe impl<T: Send> Send for Drain<'_, T> {}
+unsafe impl<T: Sync> Sync for Drain<'_, T> {}
